@@ -258,6 +258,11 @@ func unparen(e ast.Expr) ast.Expr {
 }
 
 func (r *rewriter) post(c *astutil.Cursor) bool {
+	if *flagAcc {
+		if st, ok := c.Node().(ast.Stmt); ok && c.Index() >= 0 {
+			r.probeStmt(c, st)
+		}
+	}
 	switch n := c.Node().(type) {
 	case *ast.GoStmt:
 		c.Replace(r.rewriteGo(n))
@@ -630,5 +635,235 @@ func (r *rewriter) fixImports() {
 				}
 			}
 		}
+	}
+}
+
+// ---------------------------------------------------------------- R13 probes
+
+type access struct {
+	expr  ast.Expr
+	write bool
+}
+
+func (r *rewriter) sharedNamed(t types.Type) bool {
+	if t == nil {
+		return false
+	}
+	if p, ok := t.Underlying().(*types.Pointer); ok {
+		t = p.Elem()
+	}
+	n, ok := t.(*types.Named)
+	if !ok || n.Obj().Pkg() == nil {
+		return false
+	}
+	set := sharedTypes[n.Obj().Pkg().Path()]
+	return set != nil && set[n.Obj().Name()]
+}
+
+func syncish(t types.Type) bool {
+	if p, ok := t.Underlying().(*types.Pointer); ok {
+		t = p.Elem()
+	}
+	if n, ok := t.(*types.Named); ok && n.Obj().Pkg() != nil {
+		switch n.Obj().Pkg().Path() {
+		case "sync", "sync/atomic":
+			return true
+		}
+		if n.Obj().Pkg().Path() == simrtPath {
+			return true
+		}
+	}
+	return false
+}
+
+// chainOf returns the probe expression for a selector chain rooted at an
+// identifier of a shared struct type: the identifier plus struct-valued
+// fields, up to and including the first field that is not a struct value.
+func (r *rewriter) chainOf(sel *ast.SelectorExpr) ast.Expr {
+	e, _ := r.chainOf2(sel)
+	return e
+}
+
+// chainOf2 also reports whether the probe expression is the whole selector
+// (only then is an assignment to the selector a write of the probed field).
+func (r *rewriter) chainOf2(sel *ast.SelectorExpr) (ast.Expr, bool) {
+	// collect the chain root.f1.f2...
+	var fields []*ast.SelectorExpr
+	var cur ast.Expr = sel
+	for {
+		s, ok := cur.(*ast.SelectorExpr)
+		if !ok {
+			break
+		}
+		fields = append([]*ast.SelectorExpr{s}, fields...)
+		cur = s.X
+	}
+	root, ok := cur.(*ast.Ident)
+	if !ok {
+		return nil, false
+	}
+	obj := r.pkg.TypesInfo.Uses[root]
+	if obj == nil {
+		return nil, false
+	}
+	if _, isVar := obj.(*types.Var); !isVar {
+		return nil, false
+	}
+	if !r.sharedNamed(obj.Type()) {
+		return nil, false
+	}
+	var out ast.Expr
+	for _, f := range fields {
+		selInfo := r.pkg.TypesInfo.Selections[f]
+		if selInfo == nil || selInfo.Kind() != types.FieldVal || len(selInfo.Index()) != 1 {
+			break
+		}
+		ft := selInfo.Type()
+		if syncish(ft) {
+			break
+		}
+		out = f
+		if _, isStruct := ft.Underlying().(*types.Struct); !isStruct {
+			break
+		}
+		if _, named := ft.(*types.Named); named {
+			// a named struct value (e.g. sync types are excluded above):
+			// keep descending into its fields
+		}
+	}
+	return out, out == ast.Expr(sel)
+}
+
+func (r *rewriter) probeStmt(c *astutil.Cursor, st ast.Stmt) {
+	var accs []access
+	seen := map[string]bool{}
+	add := func(e ast.Expr, write bool) {
+		if e == nil {
+			return
+		}
+		var buf bytes.Buffer
+		format.Node(&buf, r.fset, e)
+		key := buf.String()
+		if write {
+			key = "W" + key
+		}
+		if seen[key] {
+			return
+		}
+		seen[key] = true
+		accs = append(accs, access{expr: e, write: write})
+	}
+	var visit func(n ast.Node, write bool)
+	visitExpr := func(e ast.Expr, write bool) {
+		if e != nil {
+			visit(e, write)
+		}
+	}
+	visit = func(n ast.Node, write bool) {
+		switch x := n.(type) {
+		case nil:
+			return
+		case *ast.FuncLit, *ast.BlockStmt:
+			return // handled at their own statement level
+		case *ast.SelectorExpr:
+			if ch := r.chainOf(x); ch != nil {
+				add(ch, write)
+				return
+			}
+			visit(x.X, false)
+		case *ast.UnaryExpr:
+			if x.Op == token.AND {
+				// address taken: the use is unknown (often a sync primitive)
+				if _, ok := unparen(x.X).(*ast.SelectorExpr); ok {
+					return
+				}
+			}
+			visit(x.X, false)
+		case *ast.IndexExpr:
+			visit(x.X, false)
+			visit(x.Index, false)
+		case *ast.StarExpr:
+			visit(x.X, false)
+		case *ast.ParenExpr:
+			visit(x.X, write)
+		case *ast.CallExpr:
+			visit(x.Fun, false)
+			for _, a := range x.Args {
+				visit(a, false)
+			}
+		case *ast.BinaryExpr:
+			visit(x.X, false)
+			// the right operand of && and || may never be evaluated
+			if x.Op != token.LAND && x.Op != token.LOR {
+				visit(x.Y, false)
+			}
+		case *ast.KeyValueExpr:
+			visit(x.Value, false)
+		case *ast.CompositeLit:
+			for _, e := range x.Elts {
+				visit(e, false)
+			}
+		case *ast.SliceExpr:
+			visit(x.X, false)
+			visitExpr(x.Low, false)
+			visitExpr(x.High, false)
+		case *ast.TypeAssertExpr:
+			visit(x.X, false)
+		}
+	}
+	switch x := st.(type) {
+	case *ast.AssignStmt:
+		for _, l := range x.Lhs {
+			if sel, ok := unparen(l).(*ast.SelectorExpr); ok {
+				if ch, whole := r.chainOf2(sel); ch != nil {
+					add(ch, whole)
+					continue
+				}
+			}
+			visit(l, false)
+		}
+		for _, e := range x.Rhs {
+			visit(e, false)
+		}
+	case *ast.IncDecStmt:
+		if sel, ok := unparen(x.X).(*ast.SelectorExpr); ok {
+			if ch, whole := r.chainOf2(sel); ch != nil {
+				add(ch, whole)
+			}
+		}
+	case *ast.ExprStmt:
+		visit(x.X, false)
+	case *ast.ReturnStmt:
+		for _, e := range x.Results {
+			visit(e, false)
+		}
+	case *ast.IfStmt:
+		if x.Init == nil {
+			visit(x.Cond, false)
+		}
+	case *ast.SwitchStmt:
+		if x.Init == nil && x.Tag != nil {
+			visit(x.Tag, false)
+		}
+	case *ast.RangeStmt:
+		visit(x.X, false)
+	case *ast.DeferStmt:
+		for _, a := range x.Call.Args {
+			visit(a, false)
+		}
+	case *ast.SendStmt:
+		visit(x.Value, false)
+	}
+	for _, a := range accs {
+		w := "false"
+		if a.write {
+			w = "true"
+		}
+		call := simCall("Acc", &ast.CallExpr{Fun: &ast.SelectorExpr{X: ast.NewIdent("unsafe"), Sel: ast.NewIdent("Pointer")},
+			Args: []ast.Expr{&ast.UnaryExpr{Op: token.AND, X: a.expr}}}, ast.NewIdent(w), r.site(st))
+		c.InsertBefore(&ast.ExprStmt{X: call})
+		r.changed = true
+		r.needUns = true
+		counts["acc"]++
 	}
 }
